@@ -143,6 +143,9 @@ def slice_constraints(constraints, goal_exprs):
     need = set()
     for g in goal_exprs:
         need |= expr_vars(g)
+    if not need:
+        # variable-free goal (an assertion that is concretely false on this path): the question is the satisfiability of the path itself
+        return list(constraints), []
     items = [(c, expr_vars(c)) for c in constraints]
     used = [False] * len(items)
     changed = True
